@@ -126,9 +126,8 @@ func constNode(c *types.Const, uniq *int) *sx.Node {
 	case bool:
 		return sx.H("bool", sx.B(x))
 	case *big.Int, *big.Rat, *big.Float:
-		// compared by pointer identity in the code: never equal to another constant
-		*uniq++
-		return sx.H("opaque", sx.I(*uniq), sx.S(c.Val().ExactString()))
+		// since the fix for duplicate float / large members these compare by value: equal exact strings are equal
+		return sx.H("opaque", sx.I(0), sx.S(c.Val().ExactString()))
 	}
 	*uniq++
 	return sx.H("opaque", sx.I(*uniq), sx.S(c.Val().ExactString()))
